@@ -506,6 +506,16 @@ def history_stream(res, rng, entries, excs, cases, meta):
                     res.count('history:%s' % ('accepted-level' if ok else 'unseen-level'))
 
 
+def refit_precedes_validation(e):
+    """the extracted trace has a top-level MayRefit before its first validator / use (e.g. sample(..., sample_at_X=..))"""
+    for a in e.get('actions') or []:
+        if a[0] == 'MayRefit':
+            return True
+        if a[0] != 'CheckFitted':
+            return False
+    return False
+
+
 def record(res, cases, meta, excs, e, d, value, tag, fitted, skip, obs, text, extra=None):
     elems = classify(value)
     cases.append('(mk_case "%s" "%s" %s %s %s %s %s)' % (e['cls'], e['meth'], ARGK[e['arg']], desc_coq(d, elems),
@@ -524,11 +534,16 @@ def record(res, cases, meta, excs, e, d, value, tag, fitted, skip, obs, text, ex
              nontrivial=True)
     res.count('kind:%s' % (d['kind'] or 'valid'))
     res.count('observed:%s' % obs)
+    if obs == 'OOptErr':
+        res.count('optimisation-failure:%s.%s(%s)' % (e['cls'], e['meth'], 'valid' if d['kind'] is None else d['kind']))
     res.count('container:%s' % d['cont'])
     # ---- the property statement, directly on the implementation
     kind = d['kind']
     state_ok = fitted or e['fitting']
-    if kind is not None and state_ok:
+    if kind is not None and state_ok and obs == 'OOptErr' and not skip and refit_precedes_validation(e):
+        # the refit on the other, valid, arguments failed before this argument was looked at: permitted for them
+        res.count('optimisation failure of a refit on the other arguments before %s is validated' % e['arg'])
+    elif kind is not None and state_ok:
         if obs != 'OVE':
             res.violations.append(dict(
                 what='%s.%s(%s=<%s>) on a %s model did not raise ValueError' % (e['cls'], e['meth'], e['arg'], tag,
